@@ -174,3 +174,28 @@ M('C16', 'bound-delta-not-rooted', (EB, "(1 / math.sqrt(delta)) * math.sqrt(self
 M('C16', 'bound-uses-wrong-alpha-term', (EB, "math.sqrt(self._smoothing_alpha / (2 - self._smoothing_alpha))", "math.sqrt(self._smoothing_alpha / (1 - self._smoothing_alpha / 2))"))
 M('C16', 'signed-variance', (INC, "feature: (marginal_contributions[feature] - self.importance_values[feature])**2", "feature: (marginal_contributions[feature] - self.importance_values[feature]) * abs(marginal_contributions[feature] - self.importance_values[feature])"))
 M('C16', 'bound-t-off-by-one', (EB, "(1 - self._smoothing_alpha) ** self.seen_samples +", "(1 - self._smoothing_alpha) ** (self.seen_samples - 1) +"))
+
+# ---- C06 ---------------------------------------------------------------------------------------
+DEFI = 'ixai/imputer/default_imputer.py'
+M('C06', 'merge-wrong-order', (MARG, "prediction = self.model_function({**x_i, **sampled_values})", "prediction = self.model_function({**sampled_values, **x_i})"))
+M('C06', 'joint-mixes-rows', (MARG, """        sampled_features = {feature_name: sampled_instance[feature_name]
+                            for feature_name in feature_subset}
+        return sampled_features
+
+    @staticmethod
+    def _sample_product""", """        sampled_features = {feature_name: features[random.randrange(len(features))][feature_name]
+                            for feature_name in feature_subset}
+        return sampled_features
+
+    @staticmethod
+    def _sample_product"""))
+M('C06', 'one-prediction-short', (MARG, "for _ in range(n_samples):", "for _ in range(max(n_samples - 1, 1)):"))
+M('C06', 'x-updated-in-place', (MARG, "prediction = self.model_function({**x_i, **sampled_values})", "x_i.update(sampled_values)\n            prediction = self.model_function(x_i)"))
+M('C06', 'pop-from-stored-row', (MARG, """        sampled_instance = features[rand_idx].copy()
+        sampled_features = {feature_name: sampled_instance[feature_name]""", """        sampled_instance = features[rand_idx]
+        sampled_features = {feature_name: sampled_instance.pop(feature_name)"""))
+M('C06', 'empty-subset-no-prediction', (MARG, "        predictions = []\n        for _ in range(n_samples):", "        predictions = []\n        if len(feature_subset) == 0:\n            return [self.model_function(x_i)]\n        for _ in range(n_samples):"))
+M('C06', 'default-one-short', (DEFI, "prediction = [prediction for _ in range(n_samples)]", "prediction = [prediction for _ in range(1, n_samples)] or [prediction]"))
+M('C06', 'default-extra-feature', (DEFI, "sampled_values = {feature: self.values[feature] for feature in feature_subset}", "sampled_values = {feature: self.values[feature] for feature in (feature_subset if len(feature_subset) != 2 else self.values)}"))
+M('C06', 'product-off-by-one-row', (MARG, "            sampled_features[feature_name] = features[\n                            rand_idx].copy()[feature_name]", "            sampled_features[feature_name] = features[\n                            rand_idx].copy()[feature_name] + (1 if rand_idx == 3 else 0)"))
+M('C06', 'deepcopy-values', (MARG, "sampled_instance = features[rand_idx].copy()", "import copy as _c\n        sampled_instance = _c.deepcopy(features[rand_idx])"), kind='equivalent')
